@@ -21,6 +21,8 @@ OPTS = [dict(), dict(include_drf_properties=True, include_dmd_properties=False),
         dict(include_drf=False), dict(include_dmd=False), dict(reverse=True)]
 for opts in OPTS:
     top = tempfile.mkdtemp(); src = top + '/s'; dst = top + '/d'
+    if kw.get('dest_linked'):
+        os.makedirs(top + '/mnt/disk1/archive/d'); os.symlink(top + '/mnt/disk1/archive/d', dst)       # destination reached through a symlinked directory
     chd = src + '/ch0'; os.makedirs(chd + '/2020-01-01T00-00-00'); os.makedirs(chd + '/metadata/2020-01-01T00-00-00')
     open(chd + '/drf_properties.h5', 'w').write('props'); open(chd + '/2020-01-01T00-00-00/rf@1577836810.000.h5', 'w').write('data')
     open(chd + '/metadata/dmd_properties.h5', 'w').write('mprops'); open(chd + '/metadata/2020-01-01T00-00-00/metadata@1577836810.h5', 'w').write('mdata')
@@ -35,10 +37,11 @@ for opts in OPTS:
     a = argparse.Namespace(src=src, dest=dst, chs=[','.join(chs)] if chs else [], func=None, **sel)
     if cmd == 'ln': a.symbolic = bool(kw.get('symbolic'))
     {'cp': L._run_cp, 'mv': L._run_mv, 'ln': L._run_ln}[cmd](a)
-    got = sorted(os.path.relpath(os.path.join(d_, f), dst) for d_, _, fs in os.walk(dst) for f in fs)
+    got = sorted(os.path.relpath(os.path.join(d_, f), dst) for d_, _, fs in os.walk(dst + '/') for f in fs)
     if got != sorted(listed): print(opts, 'listed', sorted(listed), 'at destination', got); bad = True
     for r in listed:
         p = os.path.join(dst, r)
+        if not os.path.isfile(p): print('destination', r, 'is not a readable file (dangling link?)'); bad = True
         if os.path.isfile(p) and open(p).read() != srcdata[r]: print('destination', r, 'holds', repr(open(p).read()), 'instead of', repr(srcdata[r])); bad = True
     after = sorted(os.path.relpath(os.path.join(d_, f), src) for d_, _, fs in os.walk(src) for f in fs)
     want_after = [r for r in before if not (cmd == 'mv' and r in listed)]
